@@ -56,9 +56,10 @@ def clash_table():
             return c is T.OrOperation or (c is T.UnknownOperation and default == "should")
         for pc in classes:
             parent = c08.model_witness(pc)
-            for cc in classes:
+            for cc, arity in [(c, a) for c in classes for a in ((1, 2, 3, 4) if issubclass(c, T.BaseOperation) else (None,))]:
                 n += 1
-                kids = [T.Word("first", tail=" "), c08.model_witness(cc), T.Word("last", head=" ")]
+                child = c08.model_witness(cc) if arity is None else cc(*[T.Word("w%d" % i, head=" " if i else "", tail=" ") for i in range(arity)])
+                kids = [T.Word("first", tail=" "), child, T.Word("last", head=" ")]
                 clash = (m(pc) and s_(cc)) or (s_(pc) and m(cc))
                 got = []
                 try:
@@ -72,11 +73,11 @@ def clash_table():
                 ok = (raised == "OrAndAndOnSameLevel" and got == kids[:1] and all(a is b_ for a, b_ in zip(got, kids))) if clash else \
                     (raised is None and len(got) == 3 and all(a is b_ for a, b_ in zip(got, kids)))
                 if not ok:
-                    fails.append({"id": "%s.%s.%s" % (pc.__name__, cc.__name__, default), "parent": pc.__name__, "child": cc.__name__,
+                    fails.append({"id": "%s.%s%s.%s" % (pc.__name__, cc.__name__, arity or "", default), "parent": pc.__name__, "child": cc.__name__, "operands": arity,
                                   "default": default, "raised": raised, "yielded": len(got), "native_confirmed": True})
     return {"ok": not fails, "checked": n, "failures": fails[:10], "exhaustive": True,
             "samples": [{"parent": "AndOperation", "child": "OrOperation", "raises": "OrAndAndOnSameLevel"}],
-            "detail": "parent class x child class x default operator"}
+            "detail": "parent class x child class (operations with 1 to 4 operands) x default operator"}
 
 
 def simplify_cases():
@@ -451,7 +452,7 @@ def es_meaning(js):
     return z3.And(parts) if parts else z3.BoolVal(True)
 
 
-def _operand(kind, i, cx, top_cls):
+def _operand(kind, i, cx, top_cls, default="should"):
     """(node, stubs {id(node): E-item}, meaning) of one operand of the given kind; the stub is what the operand's own visit
     returns by ITS contract (proved in its own case), its meaning is the induction hypothesis"""
     def fresh(nm):
@@ -486,6 +487,19 @@ def _operand(kind, i, cx, top_cls):
             return n, {id(a): la, id(b): lb}, meaning
         item = (ET.EMust if kind == "and" else ET.EShould)(items=[la, lb])
         return n, {id(n): item}, meaning
+    if kind.startswith("group-"):
+        # a parenthesised operation: translations are arranged at every depth (the group, the operation inside, its operands), each
+        # with the meaning its own contract gives it, so that code looking through the parentheses is still decided
+        opk = kind.split("-", 1)[1]
+        a, b = T.Word("a%d" % i), T.Word("b%d" % i)
+        cls = {"or": T.OrOperation, "and": T.AndOperation, "unknown": T.UnknownOperation}[opk]
+        op = cls(a, b)
+        n = T.Group(op)
+        va, vb = fresh("va"), fresh("vb")
+        la, lb = SemLeaf(va, "a%d" % i), SemLeaf(vb, "b%d" % i)
+        conj = opk == "and" or (opk == "unknown" and default == "must")
+        item = (ET.EMust if conj else ET.EShould)(items=[la, lb])
+        return n, {id(n): item, id(op): item, id(a): la, id(b): lb}, (z3.And(va, vb) if conj else z3.Or(va, vb))
     raise ValueError(kind)
 
 
@@ -496,12 +510,16 @@ def semantic_cases():
     scope of evaluation and are not part of this lemma (bounded part C05-B)."""
     cases = []
     shapes = {
-        "AndOperation": [("leaf", "leaf"), ("leaf", "leaf", "leaf"), ("leaf", "and"), ("and", "leaf"), ("leaf", "not"), ("plus", "prohibit"), ("group", "leaf")],
-        "OrOperation": [("leaf", "leaf"), ("leaf", "leaf", "leaf"), ("leaf", "or"), ("or", "leaf"), ("leaf", "not"), ("plus", "prohibit"), ("group", "leaf")],
+        "AndOperation": [("leaf", "leaf"), ("leaf", "leaf", "leaf"), ("leaf", "and"), ("and", "leaf"), ("leaf", "not"), ("plus", "prohibit"), ("group", "leaf"),
+                         ("leaf", "group-or"), ("group-unknown", "leaf"), ("group-and", "group-or")],
+        "OrOperation": [("leaf", "leaf"), ("leaf", "leaf", "leaf"), ("leaf", "or"), ("or", "leaf"), ("leaf", "not"), ("plus", "prohibit"), ("group", "leaf"),
+                        ("leaf", "group-and"), ("group-unknown", "leaf")],
         "UnknownOperation": [("leaf", "leaf"), ("leaf", "leaf", "leaf"), ("leaf", "not"), ("plus", "prohibit"), ("plus", "leaf"), ("group", "leaf"), ("leaf", "and"), ("or", "leaf")],
         "BoolOperation": [("leaf", "leaf"), ("plus", "leaf"), ("plus", "prohibit", "leaf"), ("prohibit", "leaf"), ("not", "leaf"), ("plus", "plus"), ("prohibit",),
                           ("plus",), ("leaf",), ("leaf", "or"), ("leaf", "and"), ("group", "plus")],
-        "Plus": [("leaf",), ("group",), ("or",), ("not",)], "Not": [("leaf",), ("group",), ("not",), ("and",)], "Prohibit": [("leaf",), ("prohibit",), ("or",)],
+        "Plus": [("leaf",), ("group",), ("or",), ("not",), ("group-or",), ("group-unknown",)],
+        "Not": [("leaf",), ("group",), ("not",), ("and",), ("group-or",), ("group-and",), ("group-unknown",)],
+        "Prohibit": [("leaf",), ("prohibit",), ("or",), ("group-or",), ("group-and",), ("group-unknown",)],
     }
     for default in ("should", "must"):
         for cname, variants in shapes.items():
@@ -511,7 +529,7 @@ def semantic_cases():
                     b = EV.ElasticsearchQueryBuilder(default_operator=default)
                     ops, stubs, meanings = [], {}, []
                     for i, k in enumerate(kinds):
-                        n, st, mv = _operand(k, i, cx, cls)
+                        n, st, mv = _operand(k, i, cx, cls, default)
                         ops.append(n)
                         stubs.update(st)
                         meanings.append((k, mv))
@@ -568,7 +586,7 @@ def semantic_cases():
                     got = es_meaning(out[0].json)
                     cx.notes["replay_info"] = {"class": cname, "operands": list(kinds), "default": default}
                     return [(key + "/meaning-of-the-generated-bool-clause-is-the-meaning-of-the-node", got == spec),
-                            (key + "/every-operand-translated-exactly-once", len(visited) == len(stubs) and len({id(v) for v in visited}) == len(stubs))]
+                            (key + "/no-operand-translated-twice-none-skipped", len({id(v) for v in visited}) == len(visited) and len(visited) >= len(ops) - sum(1 for k in kinds if k in ("and", "or") and getattr(T, {"and": "AndOperation", "or": "OrOperation"}[k]) is cls) and bool(visited))]
                 cases.append(core.Case("C05-S/%s/%s/%s" % (default, cname, "+".join(kinds)), run,
                                        functions=["luqum.elasticsearch.visitor.ElasticsearchQueryBuilder._binary_operation",
                                                   "luqum.elasticsearch.visitor.ElasticsearchQueryBuilder.visit_not",
@@ -725,7 +743,8 @@ def search_field_table():
     prefix is the enclosing prefix extended by the dot-separated parts of the name, whose analysed marker says whether that full
     name is declared not analysed, with the node added to the parents; the result is the child's translation, wrapped in ONE nested
     clause on the longest declared nested path that the full name reaches beyond the enclosing prefix - unless there is none, or
-    the child's translation already is a nested clause (a nested clause on a deeper level stands on its own in ES)."""
+    the child's translation already is a nested clause (a nested clause on a deeper level stands on its own in ES).  Every entry is
+    answered twice: by a fresh builder and by one builder shared by the whole table (no dependence on earlier calls)."""
     from luqum.naming import set_name
     fails = []
     n = 0
@@ -734,6 +753,7 @@ def search_field_table():
     prefixes = [[], ["n"], ["n", "m"], ["a"], ["a", "b"], ["o"]]
     for spec in specs:
         npaths = set()
+        shared = EV.ElasticsearchQueryBuilder(nested_fields=spec, not_analyzed_fields=["n.x", "t"])      # one builder for the whole table: history
 
         def walk(d, pre):
             for k, v in (d or {}).items():
@@ -790,6 +810,18 @@ def search_field_table():
                             else:
                                 ok = (isinstance(r, ET.ENested) and r.nested_path == want_path and r.items is child
                                       and getattr(r, "_name", None) == ("nm" if named else "inherited"))
+                        if ok and not isinstance(child, ET.ENested):
+                            # the same step on a builder that has answered every earlier entry of the table
+                            shared.visit_iter = lambda nd, ctx, child=child: iter([child])
+                            try:
+                                r2 = list(shared.visit_search_field(node, dict(ctx0)))
+                            except Exception as e:  # noqa: BLE001
+                                r2 = [e]
+                            same = len(r2) == 1 and ((r2[0] is child) if want_path is None else
+                                                     (isinstance(r2[0], ET.ENested) and r2[0].nested_path == want_path))
+                            if not same:
+                                ok = False
+                                out = ["history-dependent: a builder used before answers %r" % (r2,)]
                         if not ok:
                             fails.append({"id": "%s|%s|%s|%s|%s" % (spec, name, prefix, kind, named), "expected_nested_path": want_path,
                                           "got": repr(out)[:200], "child_context": repr(seen[0][1])[:300] if seen else None, "native_confirmed": True})
